@@ -50,7 +50,8 @@ def main():
     args = sys.argv[2:]
     shard = args[args.index("--shard") + 1] if "--shard" in args else "0/1"
     out = args[args.index("--out") + 1]
-    only = [a for a in args if re.match(r"^C\d\d-", a)]
+    only = [a for a in args if re.match(r"^[A-Z]\d\d-", a)]
+    prefix = args[args.index("--prefix") + 1] if "--prefix" in args else None
     os.makedirs(os.path.dirname(out), exist_ok=True)
     ensure_driver()
     if not os.path.exists(os.path.join(REPO, "Cargo.lock")):
@@ -60,9 +61,11 @@ def main():
     rc, o = sh("git status --porcelain", cwd=REPO)
     assert not o.strip(), "repo %s not clean: %s" % (REPO, o[:200])
     src = "seeded" if mode == "seeds" else "benign"
-    names = sorted(d for d in os.listdir(os.path.join(VERIF, src)) if re.match(r"^C\d\d-[a-z0-9]+$", d) and os.path.exists(os.path.join(VERIF, src, d, "patch.diff")))
+    names = sorted(d for d in os.listdir(os.path.join(VERIF, src)) if re.match(r"^[A-Z]\d\d-[a-z0-9]+$", d) and os.path.exists(os.path.join(VERIF, src, d, "patch.diff")))
     if only:
         names = [n for n in names if n in only]
+    if prefix:
+        names = [n for n in names if n.startswith(prefix)]
     names = shard_of(names, shard)
     head = subprocess.check_output("git -C %s rev-parse --short HEAD" % VERIF, shell=True, text=True).strip()
     with open(out, "a") as f:
